@@ -471,6 +471,15 @@ func Yield(label string) {
 		return
 	}
 	yield(&yieldOp, label)
+	// passing the point is part of what the thread has done: without this, two consecutive
+	// plain yields of one thread would have the same state key and the second would be
+	// pruned as "already explored"
+	t := S.cur
+	var lh uint64 = 1469598103934665603
+	for i := 0; i < len(label); i++ {
+		lh = (lh ^ uint64(label[i])) * 1099511628211
+	}
+	t.h = mix(t.h, lh, 99)
 }
 
 // Go starts fn as a new scheduler thread (a real goroutine in free mode).
@@ -496,6 +505,22 @@ func Go(fn func()) {
 	t.pending = &Op{Kind: OpStart}
 	s.threads = append(s.threads, t)
 	go threadMain(t)
+}
+
+// ExecPoint is inserted at the top of execext.RunCommand: running a shell command takes time,
+// so other threads may run before it (dynamic variables, status and precondition commands have
+// no other hooked operation inside). Commands whose output goes straight to a harness probe
+// already yield at their write.
+//
+//go:norace
+func ExecPoint(stdout any) {
+	if S == nil || S.aborting || S.inline > 0 || S.quiet > 0 {
+		return
+	}
+	if _, ok := stdout.(interface{ VerifProbe() }); ok {
+		return
+	}
+	Yield("exec")
 }
 
 // Inline makes Go run its function synchronously in the caller (used to keep
